@@ -1,8 +1,10 @@
 import Proofs.C07.Laws
 import Proofs.C07.Versions
 import Proofs.C07.DerPath
+import Proofs.C07.Bip85
 import Proofs.E2E.C07
 import Proofs.E2E.C07Raw
+import Proofs.E2E.CofactorOne
 /-!
 # C07 — BIP32 derivation obeys the BIP's equations and its algebraic laws
 
@@ -13,9 +15,10 @@ Group laws enter only as `L : Btc.Lawful E.o G`; sizes as `B : Bounds E` (`0 < n
 `secp_bounds` discharges for the executable instance.  NOTE: `Lawful (Btc.EC.ops C)` is uninhabited (off-curve pairs
 have no x in range); what C01 proves is `Lawful (opsSub K)` (the same operations on reduced valid pairs of the
 n-torsion).  So the `L`-theorems below are instantiated at `subEnv K D` in the "End to end" section at the bottom,
-and carried to the EXECUTED `ecEnv C D` / `secpEnv mac` there (`…_cofactor_one`: under the named cofactor-one hypothesis;
-`deriveB_sub_ok`, `deriveFold_sub_ec`: without it, answers only).  Theorems without `L` (T1/T2 for private keys,
-T2 for the fold, T4, T5, T6, T7) apply to `secpEnv` as they stand.
+and carried to the EXECUTED `ecEnv C D` there (`…_ec_cofactor_one`: any curve, under the cofactor-one hypothesis `hcof`)
+and to the driver's `secpEnv mac` with NO curve-level hypothesis left (`…_secp256k1`: cofactor one of secp256k1 is the
+theorem `Btc.E2E.secpCofactorOne`).  Theorems without `L` (T1/T2 for private keys, T2 for the fold, T4, T5, T6, T7)
+apply to `secpEnv` as they stand.
 
 * `deriveFold` is the BIP's definition: the plain fold of single child derivations, every step setting all
   six fields.  `deriveB` is btclib's `_derive`: depth set up front, `indexes[:-1]` walked on a mutable
@@ -274,6 +277,190 @@ theorem instance_meets_bounds (mac : Bytes → Bytes → Bytes) :
     Bounds (secpEnv mac) ∧ nN (secpEnv mac) = Gen.Bip32.N ∧ HARDENED = 2 ^ 31 ∧ MAX_DEPTH = 255 :=
   ⟨secp_bounds mac, secp_n_eq mac, constants.1, constants.2.1⟩
 
+/-! ## T8 — the BIP85 applications that derive from a BIP32 path (`bip85.py`)
+
+The DRNG stream (`shake_256(entropy).digest(n)`) and BIP85's HMAC are parameters; the driver runs the same definitions
+with the Lean SHAKE256 (validated against hashlib each run). -/
+
+/-- T8 (paths): the derivation path each application writes — regenerated from the f-strings of `bip85.py` each run —
+    is the one BIP85 prints: purpose 83696968', the application number, its arguments in the BIP's order (for DICE the
+    sides BEFORE the rolls), the index last; RSA's optional sub-key level. -/
+theorem bip85_paths_are_the_BIPs :
+    Gen.Bip32.BIP85_PURPOSE = 83696968 ∧
+    Gen.Bip32.BIP85_PATHS = [
+      ("mnemonic_from_root_key", [("_PURPOSE", 0), ("", 39), ("_LANGUAGE_INDEXES[lang]", 0), ("words", 0), ("index", 0)], []),
+      ("wif_from_root_key", [("_PURPOSE", 0), ("", 2), ("index", 0)], []),
+      ("xprv_from_root_key", [("_PURPOSE", 0), ("", 32), ("index", 0)], []),
+      ("bytes_entropy_from_root_key", [("_PURPOSE", 0), ("", 128169), ("num_bytes", 0), ("index", 0)], []),
+      ("base64_password_from_root_key", [("_PURPOSE", 0), ("", 707764), ("pwd_len", 0), ("index", 0)], []),
+      ("base85_password_from_root_key", [("_PURPOSE", 0), ("", 707785), ("pwd_len", 0), ("index", 0)], []),
+      ("rolls_from_root_key", [("_PURPOSE", 0), ("", 89101), ("sides", 0), ("rolls", 0), ("index", 0)], []),
+      ("rsa_drng_from_root_key", [("_PURPOSE", 0), ("", 828365), ("key_bits", 0), ("key_index", 0)], [("sub_key", 0)])] := by
+  decide
+
+/-- T8 (constants): the bounds, tables and the dice reader's byte order read from the source are BIP85's. -/
+theorem bip85_constants_are_the_BIPs :
+    Gen.Bip32.BIP85_ROLLS_BYTEORDER = "big" ∧
+    -- "bip-entropy-from-k"
+    Gen.Bip32.BIP85_KEY = [98, 105, 112, 45, 101, 110, 116, 114, 111, 112, 121, 45, 102, 114, 111, 109, 45, 107] ∧
+    (Gen.Bip32.BIP85_MIN_BYTES, Gen.Bip32.BIP85_MAX_BYTES) = (16, 64) ∧
+    (Gen.Bip32.BIP85_MIN_B64_LEN, Gen.Bip32.BIP85_MAX_B64_LEN) = (20, 86) ∧
+    (Gen.Bip32.BIP85_MIN_B85_LEN, Gen.Bip32.BIP85_MAX_B85_LEN) = (10, 80) ∧
+    Gen.Bip32.BIP85_DRNG_SEED_SIZE = 64 ∧ Gen.Bip32.BIP85_MIN_SIDES = 2 ∧ Gen.Bip32.BIP85_MIN_ROLLS = 1 ∧
+    Gen.Bip32.BIP85_ENTROPY_BYTES = [(12, 16), (15, 20), (18, 24), (21, 28), (24, 32)] ∧
+    Gen.Bip32.BIP85_LANGUAGES.map (·.2) = [0, 1, 2, 3, 4, 5, 6, 7, 8, 9] := by
+  decide
+
+/-- T8 (paths are hardened): whatever path an application derives along is hardened at every level and as long as
+    its template, so `_assert_valid_der_path`'s third rule never fires on an application's own path; a level that
+    cannot be written hardened (≥ 2^31 — a die of 2^32 - 1 sides included) is refused, never reduced. -/
+theorem bip85_paths_hardened (lv idx : List Nat) :
+    (Bip85.hardenAll lv = .ok idx → idx.length = lv.length ∧ (∀ i ∈ idx, i ≥ HARDENED) ∧ ∀ l ∈ lv, l < HARDENED) ∧
+    ((∃ l ∈ lv, l ≥ HARDENED) → Bip85.hardenAll lv = .error (.bip32 .badField)) := by
+  unfold Bip85.hardenAll
+  constructor
+  · intro h
+    split at h
+    · cases h
+    · rename_i hn
+      cases h
+      refine ⟨by simp, ?_, ?_⟩
+      · intro i hi; simp at hi; obtain ⟨a, _, rfl⟩ := hi; omega
+      · intro l hl
+        rw [Bool.not_eq_true, List.any_eq_false] at hn
+        simpa using hn l hl
+  · rintro ⟨l, hl, hge⟩
+    have : lv.any (· ≥ HARDENED) = true := List.any_eq_true.2 ⟨l, hl, by simpa using hge⟩
+    simp [this]
+
+/-- T8 (DICE, width): `bits_per_roll` is `ceil(log2 sides)` — the least width holding every face —, the bytes read per
+    trial are `ceil(bits / 8)`, and a trial read from that many bytes is below `2^bits < 2 * sides`: every trial is
+    accepted with probability above one half, and no face is out of a trial's reach. -/
+theorem bip85_trial_width (sides : Nat) (hs : 2 ≤ sides) (c : Bytes) (hc : c.length = Bip85.bytesPerRoll sides) :
+    2 ^ (Bip85.bitsPerRoll sides - 1) < sides ∧ sides ≤ 2 ^ Bip85.bitsPerRoll sides ∧
+    8 * Bip85.bytesPerRoll sides = Bip85.bitsPerRoll sides + Bip85.excessBits sides ∧ Bip85.excessBits sides < 8 ∧
+    Bip85.trialOf sides c < 2 ^ Bip85.bitsPerRoll sides ∧ 2 ^ Bip85.bitsPerRoll sides < 2 * sides := by
+  obtain ⟨h1, h2, h3⟩ := Bip85.bitsPerRoll_spec sides hs
+  refine ⟨h2, h3, Bip85.width_split sides, ?_, Bip85.trialOf_lt sides c hc, ?_⟩
+  · unfold Bip85.excessBits Bip85.bytesPerRoll; omega
+  · have : 2 ^ Bip85.bitsPerRoll sides = 2 * 2 ^ (Bip85.bitsPerRoll sides - 1) := by
+      rw [← Nat.pow_succ']; congr 1; omega
+    omega
+where
+  /-- dice of more than 256 sides read multi-byte trials -/
+  _multi_byte : Bip85.bytesPerRoll 257 = 2 ∧ Bip85.bytesPerRoll 65537 = 3 ∧ Bip85.bytesPerRoll (2 ^ 31 - 1) = 4 := by decide
+
+/-- T8 (DICE, byte order): a trial is its bytes read BIG-endian — each further byte read is LESS significant — with the
+    low `excess_bits` shifted out: the most significant bits are the roll. -/
+theorem bip85_trial_big_endian (sides : Nat) (c : Bytes) (d : UInt8) :
+    Bip85.trialOf sides (c ++ [d]) = (ofBE c * 256 + d.toNat) / 2 ^ Bip85.excessBits sides := by
+  unfold Bip85.trialOf
+  rw [Bip85.ofBE_snoc, Nat.shiftRight_eq_div_pow]
+
+/-- T8 (DICE, rejection sampling): the rolls read off a stream are EXACTLY the first `rolls` trials that are below
+    `sides`, in stream order — a trial at or beyond `sides` is dropped, never reduced or folded —, there are exactly
+    `rolls` of them, each a face `0..sides-1`; and the model gives up (`none`) only when the stream prefix holds fewer
+    accepted trials than asked. -/
+theorem bip85_rolls_are_accepted_trials (sides rolls : Nat) (s : Bytes) :
+    let trials := (Bip85.chunksOf (Bip85.bytesPerRoll sides) s.length s).map (Bip85.trialOf sides)
+    (∀ h, Bip85.rollsOfStream sides rolls s = some h →
+      h = (trials.filter (· < sides)).take rolls ∧ h.length = rolls ∧ ∀ r ∈ h, r < sides) ∧
+    (Bip85.rollsOfStream sides rolls s = none ↔ (trials.filter (· < sides)).length < rolls) := by
+  intro trials
+  constructor
+  · intro h hh
+    obtain ⟨h1, h2⟩ := (Bip85.collect_spec sides trials rolls h).1 hh
+    refine ⟨h2, by rw [h2, List.length_take]; omega, ?_⟩
+    intro r hr
+    rw [h2] at hr
+    have := List.mem_of_mem_take hr
+    simpa using (List.mem_filter.1 this).2
+  · constructor
+    · intro hn
+      by_contra hc
+      have := (Bip85.collect_spec sides trials rolls _).2 ⟨by omega, rfl⟩
+      unfold Bip85.rollsOfStream at hn
+      rw [hn] at this; cases this
+    · intro hlt
+      cases hr : Bip85.rollsOfStream sides rolls s with
+      | none => rfl
+      | some h => have := ((Bip85.collect_spec sides trials rolls h).1 hr).1; omega
+
+/-- T8 (DICE, sessions): a shorter session off the same stream is the beginning of a longer one. -/
+theorem bip85_rolls_prefix (sides m n : Nat) (s : Bytes) (h1 h2 : List Nat) (hmn : m ≤ n)
+    (hm : Bip85.collect sides ((Bip85.chunksOf (Bip85.bytesPerRoll sides) s.length s).map (Bip85.trialOf sides)) m = some h1)
+    (hn : Bip85.collect sides ((Bip85.chunksOf (Bip85.bytesPerRoll sides) s.length s).map (Bip85.trialOf sides)) n = some h2) :
+    h1 = h2.take m := by
+  rw [((Bip85.collect_spec _ _ _ _).1 hm).2, ((Bip85.collect_spec _ _ _ _).1 hn).2, List.take_take, Nat.min_eq_left hmn]
+
+/-- T8 (XPRV): application 32' answers a ROOT key — depth, index, parent fingerprint zero — whose chain code is the
+    FIRST half of the 64 bytes and whose key is the SECOND (BIP85's order, the reverse of BIP32's master key), valid
+    under `assert_valid`, with the network's own xprv version. -/
+theorem bip85_xprv_fields (forced : Option Bytes) (x y : XKey) (index : Nat)
+    (h : Bip85.xprvApp E forced x index = .ok y) :
+    y.depth = 0 ∧ y.index = 0 ∧ y.parentFp = [0, 0, 0, 0] ∧ assertValid E y = .ok () ∧
+    (∃ e, Bip85.appEntropy E forced x "xprv_from_root_key" [("index", index)] = .ok e ∧
+      y.chain = e.take 32 ∧ y.key = 0 :: e.drop 32) ∧
+    ∃ w, Gen.Bip32.BIP85_NET_OF_VERSION.lookup x.version = some (w, y.version) := by
+  unfold Bip85.xprvApp at h
+  cases he : Bip85.appEntropy E forced x "xprv_from_root_key" [("index", index)] with
+  | error e => rw [he] at h; cases h
+  | ok e =>
+    rw [he] at h
+    simp only [Except.bind] at h
+    split at h
+    · cases h
+    · rename_i w ver hl
+      cases hv : assertValid E { version := ver, depth := 0, parentFp := [0, 0, 0, 0], index := 0, chain := e.take 32,
+                                 key := 0 :: e.drop 32 } with
+      | error e' => rw [hv] at h; cases h
+      | ok u =>
+        rw [hv] at h
+        cases h
+        exact ⟨rfl, rfl, rfl, hv, ⟨e, rfl, rfl, rfl⟩, ⟨w, hl⟩⟩
+
+/-- T8 (truncations): HEX, the BIP39 child entropy and the WIF scalar are PREFIXES of the application's 64 bytes
+    (the leading `n` / `_ENTROPY_BYTES[words]` / 32 bytes), never another slice. -/
+theorem bip85_truncations (forced : Option Bytes) (x : XKey) (n words lang index : Nat) (b : Bytes) :
+    (Bip85.hexApp E forced x n index = .ok b →
+      16 ≤ n ∧ n ≤ 64 ∧ ∃ e, Bip85.appEntropy E forced x "bytes_entropy_from_root_key" [("num_bytes", n), ("index", index)] = .ok e ∧
+        b = e.take n) ∧
+    (Bip85.bip39Entropy E forced x words lang index = .ok b →
+      ∃ k e, Gen.Bip32.BIP85_ENTROPY_BYTES.lookup words = some k ∧
+        Bip85.appEntropy E forced x "mnemonic_from_root_key"
+          [("_LANGUAGE_INDEXES[lang]", lang), ("words", words), ("index", index)] = .ok e ∧ b = e.take k) := by
+  constructor
+  · intro h
+    unfold Bip85.hexApp at h
+    split at h
+    · cases h
+    · rename_i hb
+      have hb' : 16 ≤ n ∧ n ≤ 64 := by simpa [Gen.Bip32.BIP85_MIN_BYTES, Gen.Bip32.BIP85_MAX_BYTES] using hb
+      cases he : Bip85.appEntropy E forced x "bytes_entropy_from_root_key" [("num_bytes", n), ("index", index)] with
+      | error e => rw [he] at h; cases h
+      | ok e => rw [he] at h; cases h; exact ⟨hb'.1, hb'.2, e, rfl, rfl⟩
+  · intro h
+    unfold Bip85.bip39Entropy at h
+    split at h
+    · cases h
+    · rename_i k hk
+      split at h
+      · cases h
+      · cases he : Bip85.appEntropy E forced x "mnemonic_from_root_key"
+            [("_LANGUAGE_INDEXES[lang]", lang), ("words", words), ("index", index)] with
+        | error e => rw [he] at h; cases h
+        | ok e => rw [he] at h; cases h; exact ⟨k, e, hk, rfl, rfl⟩
+
+-- non-vacuity: the BIP's own die (6 sides: one byte, five bits shifted out), a 1000-sided one (two bytes read
+-- big-endian, six bits shifted out; 0x03E7 >> 6 = 15; 0xFFFF >> 6 = 1023 is dropped), a rejected trial in between
+example : Bip85.rollsOfStream 6 3 [0x20, 0xE0, 0x5F, 0xA0] = some [1, 2, 5] := by decide
+example : Bip85.rollsOfStream 1000 2 [0x03, 0xE7, 0xFF, 0xFF, 0xF9, 0xC0] = some [15, 999] := by decide
+example : Bip85.rollsOfStream 1000 3 [0x03, 0xE7, 0xFF, 0xFF, 0xF9, 0xC0] = none := by decide
+example : Bip85.hardenAll [83696968, 89101, 6, 10, 0] = .ok [2231180616, 2147572749, 2147483654, 2147483658, 2147483648] := by decide
+example : Bip85.hardenAll [83696968, 89101, 2 ^ 32 - 1, 10, 0] = .error (.bip32 .badField) := by decide
+example : Bip85.levelsOf "rolls_from_root_key" [("sides", 6), ("rolls", 10), ("index", 0)] false =
+    some [83696968, 89101, 6, 10, 0] := by decide
+
 /-! ## non-vacuity -/
 
 -- a concrete valid private key (k = 1) under the executable instance
@@ -301,9 +488,9 @@ operations on the underlying pairs, `lift_x` answering inside the `n`-torsion). 
 `Lawful (opsSub K)`.  The theorems named `…_cofactor_one` below are about the EXECUTED `ecEnv C D` / `secpEnv mac`, refusals
 included, under the explicit hypothesis that `lift_x` of `opsSub K` and of `Btc.EC.ops C` agree (`LiftAgree K`), which
 follows from cofactor one (`hcof : ∀ g, n • g = 0`) and `Δ ≠ 0` (`liftAgree_of_cofactor_one`).  For secp256k1, `Δ ≠ 0` is
-proved, primality of `p`, `n` is proved (Pratt certificates), and `SecpCofactorOne` is the ONE remaining named
-assumption (no point count in Mathlib).  Without it: `deriveB_sub_ok` (what `_derive` answers over `subEnv` it answers
-over `ecEnv`), `deriveFold_sub_ec`, and the success form of T3. -/
+proved, primality of `p`, `n` is proved (Pratt certificates), and cofactor one is PROVED
+(`Btc.E2E.secpCofactorOne`, Proofs/E2E/CofactorOne.lean): the `…_secp256k1` theorems at the end carry no curve-level
+hypothesis.  `hcof` stays a genuine hypothesis of the generic `…_ec_cofactor_one` forms (it is false with a cofactor). -/
 namespace Props.C07
 open Btc Btc.EC Btc.C01 Btc.E2E Btc.Bip32
 
@@ -347,7 +534,7 @@ theorem crack_recovers_parent_ec (C : Curve) (D : EnvData) (B : Bounds (ecEnv C 
   Btc.E2E.crack_recovers_parent_ec C D B x y v i hv hi hc
 
 /-- T3 on secp256k1 (the driver's `secpEnv mac`), full equation over `secpSubEnv`: no curve hypothesis -/
-theorem neuter_derive_secp256k1
+theorem neuter_derive_secp256k1_sub
     (mac : Bytes → Bytes → Bytes) (x : XKey) (v : Bytes) (path : List ℕ)
     (hv : ValidPrv (secpEnv mac) x) (hver : Gen.Bip32.pubVersion x.version = some v)
     (hpath : ∀ i ∈ path, i < HARDENED) :
@@ -365,8 +552,8 @@ theorem neuter_derive_raw_secp256k1
     deriveFold (secpEnv mac) { x with version := v, key := pubOfPrv (secpEnv mac) x.prvInt } path = .ok y' :=
   Btc.E2E.neuter_derive_raw_secp256k1 mac x v path hv hver hpath y' hy
 
-/-- T1 on secp256k1 -/
-theorem deriveB_eq_fold_secp256k1
+/-- T1 on secp256k1, over `secpSubEnv` -/
+theorem deriveB_eq_fold_secp256k1_sub
     (mac : Bytes → Bytes → Bytes) (x : XKey) (path : List ℕ)
     (hk : x.isPrivate = true ∨ ∀ i ∈ path, i < HARDENED) (hd : x.depth + path.length ≤ MAX_DEPTH) :
     deriveB (secpSubEnv mac) x path none = deriveFold (secpSubEnv mac) x path :=
@@ -410,44 +597,45 @@ theorem neuter_derive_ec_cofactor_one {p : ℕ} [Fact p.Prime] {C : Curve} (K : 
   ⟨neuter_derive_raw_full K D (liftAgree_of_cofactor_one K h34 hcof hΔ) h34 B x v path hv hver hp,
    neuter_deriveB_raw K D (liftAgree_of_cofactor_one K h34 hcof hΔ) h34 B x v path hv hver hp⟩
 
-/-- T1 on the driver's `secpEnv mac`: the only assumption is cofactor one (`Δ ≠ 0`, primality: proved) -/
-theorem deriveB_eq_fold_secp256k1_cofactor_one (hcof : SecpCofactorOne) (mac : Bytes → Bytes → Bytes) (x : XKey) (path : List ℕ)
+/-- T1 on the driver's `secpEnv mac`: NO curve-level hypothesis (cofactor one, `Δ ≠ 0`, primality: all proved) -/
+theorem deriveB_eq_fold_secp256k1 (mac : Bytes → Bytes → Bytes) (x : XKey) (path : List ℕ)
     (hk : x.isPrivate = true ∨ ∀ i ∈ path, i < HARDENED) (hd : x.depth + path.length ≤ MAX_DEPTH) :
     deriveB (secpEnv mac) x path none = deriveFold (secpEnv mac) x path :=
-  Btc.E2E.deriveB_eq_fold_secp256k1_cofactor_one hcof mac x path hk hd
+  Btc.E2E.deriveB_eq_fold_secp256k1_cofactor_one Btc.E2E.secpCofactorOne mac x path hk hd
 
 /-- T1 (fields) on `secpEnv mac`: never another index than the one asked -/
-theorem deriveB_fields_secp256k1_cofactor_one (hcof : SecpCofactorOne) (mac : Bytes → Bytes → Bytes) (x y : XKey) (path : List ℕ)
+theorem deriveB_fields_secp256k1 (mac : Bytes → Bytes → Bytes) (x y : XKey) (path : List ℕ)
     (hk : x.isPrivate = true ∨ ∀ i ∈ path, i < HARDENED) (h : deriveB (secpEnv mac) x path none = .ok y) :
     y.depth = x.depth + path.length ∧ y.version = x.version ∧ y.isPrivate = x.isPrivate ∧
     ∀ i, path.getLast? = some i → y.index = i :=
-  Btc.E2E.deriveB_fields_secp256k1_cofactor_one hcof mac x y path hk h
+  Btc.E2E.deriveB_fields_secp256k1_cofactor_one Btc.E2E.secpCofactorOne mac x y path hk h
 
 /-- T2 on `secpEnv mac` in btclib's shape: every split of a path -/
-theorem deriveB_compose_secp256k1_cofactor_one (hcof : SecpCofactorOne) (mac : Bytes → Bytes → Bytes) (x y : XKey)
+theorem deriveB_compose_secp256k1 (mac : Bytes → Bytes → Bytes) (x y : XKey)
     (q r : List ℕ) (hk : x.isPrivate = true ∨ ∀ i ∈ q ++ r, i < HARDENED)
     (hd : x.depth + (q ++ r).length ≤ MAX_DEPTH) (h : deriveB (secpEnv mac) x q none = .ok y) :
     deriveB (secpEnv mac) y r none = deriveB (secpEnv mac) x (q ++ r) none :=
-  Btc.E2E.deriveB_compose_secp256k1_cofactor_one hcof mac x y q r hk hd h
+  Btc.E2E.deriveB_compose_secp256k1_cofactor_one Btc.E2E.secpCofactorOne mac x y q r hk hd h
 
 /-- T3 on `secpEnv mac`, the full equation for the BIP fold: refused at the same index on both sides -/
-theorem neuter_derive_secp256k1_cofactor_one (hcof : SecpCofactorOne) (mac : Bytes → Bytes → Bytes) (x : XKey) (v : Bytes)
+theorem neuter_derive_secp256k1 (mac : Bytes → Bytes → Bytes) (x : XKey) (v : Bytes)
     (path : List ℕ) (hv : ValidPrv (secpEnv mac) x) (hver : Gen.Bip32.pubVersion x.version = some v)
     (hp : ∀ i ∈ path, i < HARDENED) :
     ((deriveFold (secpEnv mac) x path).mapError Err.toPub).bind (neuter (secpEnv mac)) =
       (neuter (secpEnv mac) x).bind fun x' => deriveFold (secpEnv mac) x' path :=
-  Btc.E2E.neuter_derive_secp256k1_cofactor_one hcof mac x v path hv hver hp
+  Btc.E2E.neuter_derive_secp256k1_cofactor_one Btc.E2E.secpCofactorOne mac x v path hv hver hp
 
 /-- T3 on `secpEnv mac` in btclib's shape (`_derive`, `_xpub_from_xprv`) -/
-theorem neuter_deriveB_secp256k1_cofactor_one (hcof : SecpCofactorOne) (mac : Bytes → Bytes → Bytes) (x : XKey) (v : Bytes)
+theorem neuter_deriveB_secp256k1 (mac : Bytes → Bytes → Bytes) (x : XKey) (v : Bytes)
     (path : List ℕ) (hv : ValidPrv (secpEnv mac) x) (hver : Gen.Bip32.pubVersion x.version = some v)
     (hp : ∀ i ∈ path, i < HARDENED) (hd : x.depth + path.length ≤ MAX_DEPTH) :
     ((deriveB (secpEnv mac) x path none).mapError Err.toPub).bind (neuter (secpEnv mac)) =
       (neuter (secpEnv mac) x).bind fun x' => deriveB (secpEnv mac) x' path none :=
-  Btc.E2E.neuter_deriveB_secp256k1_cofactor_one hcof mac x v path hv hver hp hd
+  Btc.E2E.neuter_deriveB_secp256k1_cofactor_one Btc.E2E.secpCofactorOne mac x v path hv hver hp hd
 
 /-- no assumption at all, secp256k1: `_derive`'s answers over `secpSubEnv` are its answers on `secpEnv`; with
-    `deriveB_eq_fold_secp256k1` this ties btclib's shape to the fold in the success case -/
+    `deriveB_eq_fold_secp256k1_sub` this ties btclib's shape to the fold in the success case (superseded by
+    `deriveB_eq_fold_secp256k1`, kept because it needs no point count) -/
 theorem deriveB_sub_ok_secp256k1 (mac : Bytes → Bytes → Bytes) {x y : XKey} {path : List ℕ} {f : Option Bytes}
     (h : deriveB (secpSubEnv mac) x path f = .ok y) : deriveB (secpEnv mac) x path f = .ok y :=
   Btc.E2E.deriveB_sub_ok_secp256k1 mac h
